@@ -29,6 +29,9 @@ namespace CDNS {
     template<typename T>
     class KeyRef
     {
+#ifdef CDNS_VERIF
+        friend struct ::cdns_verif::Access;
+#endif
     public:
         /**
          * @brief Constructor.
@@ -82,6 +85,9 @@ namespace CDNS {
      */
     template<typename T, typename K = T>
     class BlockTable {
+#ifdef CDNS_VERIF
+        friend struct ::cdns_verif::Access;
+#endif
     public:
         /**
          * @brief Default constructor.
